@@ -15,6 +15,9 @@ pub fn gen(args: &Args) {
         let cfg = GenCfg {
             dyadic: id % 2 == 0,
             max_depth: 3 + (id % 3) as usize,
+            max_nodes: 30 + 10 * (id % 4) as usize,
+            max_infos: 6,
+            chance_repeat: id % 5 == 0,
             ..GenCfg::default()
         };
         let mut t = tree::gen_tree(&mut r, &cfg);
@@ -47,25 +50,47 @@ pub fn evaluate(t: &Tree, prof: &Profile) -> Result<[f64; 6], String> {
 
 /// compare get_info() of the real code with the exact values computed by TLC
 pub fn replay(args: &Args) {
-    let cases = util::read_ndjson(args.get("cases"));
     let exps = util::read_ndjson(args.get("exp"));
     let mut out = Out::create(args.get("out"));
     let tol = 1e-11;
-    let by_id: std::collections::HashMap<i64, &Value> =
-        exps.iter().map(|e| (e["id"].as_i64().unwrap(), e)).collect();
+    // either a separate case file (oracle pipeline) or cases embedded in the TLC output
+    let cases: Vec<Value> = match args.opt.get("cases") {
+        Some(path) => {
+            let by_id: std::collections::HashMap<i64, Value> =
+                exps.iter().map(|e| (e["id"].as_i64().unwrap(), e["exp"].clone())).collect();
+            util::read_ndjson(path)
+                .into_iter()
+                .map(|c| {
+                    let id = c["id"].as_i64().unwrap();
+                    json!({"id": id, "tree": c["tree"], "prof": c["prof"], "exp": by_id.get(&id).cloned().unwrap_or(Value::Null)})
+                })
+                .collect()
+        }
+        None => exps
+            .iter()
+            .map(|e| json!({"id": e["id"], "tree": e["exp"]["tree"], "prof": e["exp"]["prof"], "exp": e["exp"]["exp"]}))
+            .collect(),
+    };
     for case in cases.iter() {
         let id = case["id"].as_i64().unwrap();
-        let Some(exp) = by_id.get(&id) else {
+        let exp = &case["exp"];
+        if exp.is_null() {
             out.line(&json!({"id": id, "status": "noexp"}));
             continue;
-        };
-        let exp = &exp["exp"];
+        }
         if exp["poisoned"].as_bool() == Some(true) {
             out.line(&json!({"id": id, "status": "poisoned"}));
             continue;
         }
         let t: Tree = serde_json::from_value(case["tree"].clone()).unwrap();
-        let prof: Profile = serde_json::from_value(case["prof"].clone()).unwrap();
+        // TLC prints a function with an empty domain as []
+        let mut pj = case["prof"].clone();
+        for side in pj.as_array_mut().unwrap().iter_mut() {
+            if side.as_array().map_or(false, |a| a.is_empty()) {
+                *side = json!({});
+            }
+        }
+        let prof: Profile = serde_json::from_value(pj).unwrap();
         let (u, r1, r2, tot) = (
             util::rat(&exp["util"]),
             util::rat(&exp["r1"]),
@@ -74,30 +99,29 @@ pub fn replay(args: &Args) {
         );
         match evaluate(&t, &prof) {
             Err(msg) => out.line(&json!({"id": id, "status": "violation",
-                "what": "evaluation failed on a valid game and profile", "observed": msg})),
+                "mismatch": [{"class": "failed", "what": "evaluation failed on a valid game and profile", "observed": msg}]})),
             Ok([u1, u2, g1, g2, gt, _]) => {
                 let mut bad = Vec::new();
                 if !util::close(u1, u, tol) {
-                    bad.push(json!({"field": "player_one_utility", "observed": u1, "specified": exp["util"]}));
+                    bad.push(json!({"class": "utility", "what": "player one utility differs", "observed": u1, "specified": exp["util"]}));
                 }
                 if u2 != -u1 {
-                    bad.push(json!({"field": "player_two_utility", "observed": u2, "specified": "-player_one_utility"}));
+                    bad.push(json!({"class": "utility", "what": "player two utility is not the negation", "observed": u2}));
                 }
                 if !util::close(g1, r1, tol) {
-                    bad.push(json!({"field": "player_one_regret", "observed": g1, "specified": exp["r1"]}));
+                    bad.push(json!({"class": "regret", "what": "player one regret differs", "observed": g1, "specified": exp["r1"]}));
                 }
                 if !util::close(g2, r2, tol) {
-                    bad.push(json!({"field": "player_two_regret", "observed": g2, "specified": exp["r2"]}));
+                    bad.push(json!({"class": "regret", "what": "player two regret differs", "observed": g2, "specified": exp["r2"]}));
                 }
                 if !util::close(gt, tot, tol) || gt != f64::max(g1, g2) {
-                    bad.push(json!({"field": "regret", "observed": gt, "specified": exp["total"]}));
+                    bad.push(json!({"class": "total", "what": "total regret is not the larger player regret", "observed": gt, "specified": exp["total"]}));
                 }
                 let nontrivial = t.stats().1 >= 1;
                 if bad.is_empty() {
                     out.line(&json!({"id": id, "status": "ok", "nontrivial": nontrivial}));
                 } else {
-                    out.line(&json!({"id": id, "status": "violation", "what": "get_info differs from the exact oracle",
-                        "mismatch": bad, "tree": case["tree"], "prof": case["prof"]}));
+                    out.line(&json!({"id": id, "status": "violation", "mismatch": bad}));
                 }
             }
         }
